@@ -77,9 +77,21 @@ STRODD = ["it's", "100%", "{x}", "#tag", "a:b", "a=b", "a,b", "(x)", "[x]", "x;y
           "1.5"]
 # (a double quote, a backslash or a backtick inside a str default are genuine defects of the docstring layer: probe only)
 STRBAD = ['say "hi"', '"hi" he said', '3"', '5" nail', "a\\b", "`tick`"]
+# str defaults that open and / or close with a quote character
+STRQUOTE = ["'a\"", "\"b'", "'tis", "x'", "\"", "''"]  # (a value that starts and ends with the same quote character is how the IR spells a quoted literal: not a distinct value)
 NESTED_TYPES = ["Optional[List[int]]", "Union[int, str, float]", "List[Optional[str]]", "Dict[str, int]", "Tuple[int, str]",
                 "Optional[Union[int, str]]", "List[List[int]]", "Optional[Literal['a', 'b']]", "Literal['only']",
                 "Literal['a b', 'c']"]
+
+
+# descriptions that open and / or close with a quote character (of the same or of different kinds)
+QUOTED_TEMPLATES = ("'%s' or \"%s\"", "\"%s\" then '%s'", "'%s' and '%s'", "\"%s\" %s \"%s\"", "'%s' first", "use \"%s\"",
+                    "%s's %s", "'%s %s", "%s \"%s", "'%s'", "\"%s %s\"", "'%s means \"%s\"", "\"%s and '%s'")
+
+
+def quoted_doc(r):
+    t = r.choice(QUOTED_TEMPLATES)
+    return t % tuple(r.choice(WORDS) for _ in range(t.count("%s")))
 
 
 def punct_doc(r):
@@ -159,7 +171,7 @@ def make_default(r, typ, dkind):
         "int": {"int": [5, 42, 7, 1], "negint": [-3, -100, -1], "zero": [0]},
         "float": {"float": [0.5, 3.25, 2.0], "negfloat": [-1.5, -0.001], "smallfloat": [1e-07], "zero": [0.0]},
         "str": {"str": ["hello", "mnist", "a_b", "r", ",", "ab", "0", "\u00e9"], "strspace": ["x y"], "strtilde": ["~/dir"], "strdot": ["a.b"],
-                "emptystr": [""], "strodd": STRODD, "strbad": STRBAD},
+                "emptystr": [""], "strodd": STRODD, "strbad": STRBAD, "strquote": STRQUOTE},
         "bool": {"bool": [True, False]},
         # a default whose text only reads correctly once the type is known ('1j' is no int / float / bool literal)
         "complex": {"imag": [1j, 2.5j, 3j]},
@@ -178,7 +190,7 @@ def admissible_default_kinds(typ):
     elif base == "float":
         out += ["float", "negfloat", "smallfloat", "zero"]
     elif base == "str":
-        out += ["str", "strspace", "strtilde", "strdot", "emptystr", "strodd", "strbad"]
+        out += ["str", "strspace", "strtilde", "strdot", "emptystr", "strodd", "strbad", "strquote"]
     elif base == "bool":
         out += ["bool"]
     elif base == "complex":
@@ -197,7 +209,9 @@ def make_param(r, tkind, dkind, doc_kind="plain"):
     p = OrderedDict()
     if tkind == "nested":
         dkind = "absent"  # nested types are about the type string; they carry no default
-    if doc_kind == "punct":
+    if doc_kind == "quoted":
+        p["doc"] = quoted_doc(r)
+    elif doc_kind == "punct":
         p["doc"] = punct_doc(r)
     elif doc_kind != "none":
         p["doc"] = rand_doc(r, trigger=doc_kind == "trigger", multiline=doc_kind == "multiline",
@@ -206,7 +220,7 @@ def make_param(r, tkind, dkind, doc_kind="plain"):
     d = make_default(r, typ, dkind)
     if d is None:  # kind not applicable to this type: fall back to an applicable one (plain kinds first)
         alts = admissible_default_kinds(typ)[1:]
-        for alt in sorted(alts, key=lambda k: k in ("none", "code", "emptystr", "strdot", "strodd", "strbad")):
+        for alt in sorted(alts, key=lambda k: k in ("none", "code", "emptystr", "strdot", "strodd", "strbad", "strquote")):
             d = make_default(r, typ, alt)
             if d is not None:
                 break
@@ -240,6 +254,8 @@ def default_kind_of(p):
             return "strodd"
         if d in STRBAD:
             return "strbad"
+        if d in STRQUOTE:
+            return "strquote"
         if d == "":
             return "emptystr"
         if " " in d:
@@ -320,7 +336,7 @@ def rand_ir(r, nparams=None, type_kinds=TYPE_KINDS, default_kinds=None, suffix_d
             for alt in admissible_default_kinds(typ)[1:]:
                 d = make_default(r, typ, alt)
                 if d is not None and alt not in ("none", "code", "emptystr", "strdot", "strspace", "strtilde", "strodd",
-                                                 "strbad"):
+                                                 "strbad", "strquote"):
                     rp["default"] = "```%r```" % (d,)
                     break
         ret = OrderedDict([("return_type", rp)])
